@@ -5,6 +5,7 @@ from vlib import xhex
 from props.codec_common import *
 
 THEOREMS = ["C02_wire_format"]
+RELEASE = True          # debug and release builds of the harness (debug_assert!, overflow checks, cfg(debug_assertions))
 RULE = ("SPEC <bundle> over the C01 domain (see C01); implementation bytes are compared with (a) the extracted Coq specification "
         "encoder rfc_bytes and (b) the Python reference encoder; non-trivial = distinct line with an extension block or a CRC")
 TRUSTED_BASE = CODEC_TRUSTED
@@ -21,7 +22,7 @@ def corpus():
 
 
 def cases(rng, tier):
-    return [_line(b) for b in bundle_cases(rng, 1500 if tier == "quick" else 150000)]
+    return [_line(b) for b in bundle_cases(rng, 1500 if tier == "quick" else 150000)] + pair_lines(rng, 300 if tier == "quick" else 30000, _line)
 
 
 def oracle(line, out, mode):
